@@ -13,8 +13,11 @@ package quic
 // scheduler point; every schedule of the thread mixes below with at most two (thorough: three)
 // preemptions is executed. Each mix runs on a fresh streams map and on one that went through a
 // rejected 0-RTT first (ResetFor0RTT + UseResetMaps: the maps the connection finally closes are
-// not the ones it was created with); three more mixes race the rejection itself. Oracle: when no thread can take a step any more, no call is still
-// blocked, and calls that return after the close report an error rather than success.
+// not the ones it was created with); three more mixes race the rejection itself. The stream a Read /
+// Peek waits on is empty so far, complete, or received out of order (its end - with the FIN - behind
+// a gap of missing bytes). Oracle: when no thread can take a step any more, no call is still
+// blocked; calls that return after the close report an error rather than success; a Read / Peek made
+// after the close, or one that waited on a gap which is never filled, returns the close error.
 
 import (
 	"context"
@@ -22,6 +25,7 @@ import (
 	"errors"
 	"fmt"
 	"io"
+	"strings"
 	"testing"
 
 	"github.com/refraction-networking/uquic/internal/flowcontrol"
@@ -36,7 +40,7 @@ import (
 
 type c17e3sVariant struct {
 	Name    string
-	Setup   string // uni-fin | uni-nofin | bidi-fin-sendacked | bidi-fin | none
+	Setup   string // uni-fin | uni-nofin | bidi-fin-sendacked | bidi-fin | none | uni-gap-fin | uni-gap-nofin | uni-midgap-fin | bidi-gap-fin
 	Threads [][]string
 	// Hist0RTT: the streams map has been through a rejected 0-RTT before anything else happens
 	// (ResetFor0RTT by the run loop, UseResetMaps by the application's NextConnection), as on a
@@ -49,7 +53,13 @@ type c17e3sVariant struct {
 // accept | acceptuni | opensync (blocked by the peer's stream limit 0) | ackfin (the FIN is acknowledged) |
 // rst (RESET_STREAM) | fin (FIN frame arrives) | reset0rtt (the run loop drops the 0-RTT keys: ResetFor0RTT) |
 // usereset (the application's NextConnection: UseResetMaps) | accept2 / opensync2 (= accept / opensync, a
-// second call of the same thread)
+// second call of the same thread) | peek (one Peek of the whole stream) | fill (the STREAM frame that closes the gap
+// arrives, late)
+//
+// Setups with a GAP (loss / reordering on the way to this endpoint): the LAST part of the stream, bytes
+// [40,100), has arrived - with the FIN (x-gap-fin: the final size is known) or without (uni-gap-nofin) - while
+// bytes [0,40) (uni-midgap-fin: [20,40), after [0,20) arrived in order) are still missing, so a Read / Peek
+// waits on the gap, not on the end of the stream, at the moment the connection ends.
 var c17e3sVariants = c17e3sAllVariants()
 
 // every thread mix on a fresh streams map and on one that has been through a rejected 0-RTT, plus
@@ -80,6 +90,20 @@ var c17e3sBaseVariants = []c17e3sVariant{
 	{Name: "accept|acceptuni|close", Setup: "none", Threads: [][]string{{"accept"}, {"acceptuni"}, {"close"}}},
 	{Name: "opensync|close", Setup: "none", Threads: [][]string{{"opensync"}, {"close"}}},
 	{Name: "uni:readall|readall2|close", Setup: "uni-fin", Threads: [][]string{{"readall"}, {"acceptuni"}, {"close"}}},
+	// final size known, earlier data missing: the blocked call waits on the gap
+	{Name: "uni-gap-fin:blocked-read|close", Setup: "uni-gap-fin", Threads: [][]string{{"readall"}, {"close"}}},
+	{Name: "uni-gap-fin:blocked-peek|close", Setup: "uni-gap-fin", Threads: [][]string{{"peek"}, {"close"}}},
+	{Name: "uni-midgap-fin:blocked-read|close", Setup: "uni-midgap-fin", Threads: [][]string{{"readall"}, {"close"}}},
+	{Name: "uni-midgap-fin:blocked-peek|close", Setup: "uni-midgap-fin", Threads: [][]string{{"peek"}, {"close"}}},
+	{Name: "bidi-gap-fin:blocked-read|close", Setup: "bidi-gap-fin", Threads: [][]string{{"readall"}, {"close"}}},
+	{Name: "bidi-gap-fin:blocked-peek|close", Setup: "bidi-gap-fin", Threads: [][]string{{"peek"}, {"close"}}},
+	// the gap without a known final size, the FIN arriving behind the gap right before the end, the gap
+	// closed right before the end, a RESET_STREAM (same final size) right before the end
+	{Name: "uni-gap-nofin:blocked-peek|close", Setup: "uni-gap-nofin", Threads: [][]string{{"peek"}, {"close"}}},
+	{Name: "uni-gap-nofin:blocked-read|fin-close", Setup: "uni-gap-nofin", Threads: [][]string{{"readall"}, {"fin", "close"}}},
+	{Name: "uni-gap-fin:blocked-read|fill-close", Setup: "uni-gap-fin", Threads: [][]string{{"readall"}, {"fill", "close"}}},
+	{Name: "uni-gap-fin:blocked-peek|fill-close", Setup: "uni-gap-fin", Threads: [][]string{{"peek"}, {"fill", "close"}}},
+	{Name: "uni-gap-fin:blocked-read|rst-close", Setup: "uni-gap-fin", Threads: [][]string{{"readall"}, {"rst", "close"}}},
 }
 
 type c17e3sReplay struct {
@@ -116,7 +140,11 @@ func c17e3sScenario(v c17e3sVariant) func() *sched.Scenario {
 		}
 		now := monotime.Now()
 		ctx := context.Background()
-		var rd io.Reader
+		var rd interface {
+			io.Reader
+			Peek([]byte) (int, error)
+		}
+		var fill func()
 		var cancelRead func()
 		var bidi *Stream
 		var finFrame func()
@@ -126,6 +154,25 @@ func c17e3sScenario(v c17e3sVariant) func() *sched.Scenario {
 			rs, err := sm.AcceptUniStream(ctx)
 			explore.Must(err == nil, "setup accept uni")
 			rd, cancelRead = rs, func() { rs.CancelRead(7) }
+		case "uni-gap-fin", "uni-gap-nofin", "uni-midgap-fin":
+			if v.Setup == "uni-midgap-fin" {
+				explore.Must(sm.HandleStreamFrame(&wire.StreamFrame{StreamID: 3, Data: make([]byte, 20)}, now) == nil, "setup first frame")
+			}
+			explore.Must(sm.HandleStreamFrame(&wire.StreamFrame{StreamID: 3, Offset: 40, Data: make([]byte, 60), Fin: v.Setup != "uni-gap-nofin"}, now) == nil, "setup frame behind the gap")
+			rs, err := sm.AcceptUniStream(ctx)
+			explore.Must(err == nil, "setup accept uni")
+			rd, cancelRead = rs, func() { rs.CancelRead(7) }
+			fill = func() {
+				_ = sm.HandleStreamFrame(&wire.StreamFrame{StreamID: 3, Offset: 0, Data: make([]byte, 40)}, monotime.Now())
+			}
+		case "bidi-gap-fin":
+			explore.Must(sm.HandleStreamFrame(&wire.StreamFrame{StreamID: 1, Offset: 40, Data: make([]byte, 60), Fin: true}, now) == nil, "setup frame behind the gap")
+			str, err := sm.AcceptStream(ctx)
+			explore.Must(err == nil, "setup accept")
+			bidi, rd, cancelRead = str, str, func() { str.CancelRead(7) }
+			fill = func() {
+				_ = sm.HandleStreamFrame(&wire.StreamFrame{StreamID: 1, Offset: 0, Data: make([]byte, 40)}, monotime.Now())
+			}
 		case "bidi-fin", "bidi-fin-sendacked":
 			explore.Must(sm.HandleStreamFrame(&wire.StreamFrame{StreamID: 1, Data: make([]byte, 100), Fin: true}, now) == nil, "setup frame")
 			str, err := sm.AcceptStream(ctx)
@@ -147,8 +194,14 @@ func c17e3sScenario(v c17e3sVariant) func() *sched.Scenario {
 				}
 			}
 		}
-		closed, closing := false, false
+		closed, closing, stuck := false, false, false
 		results := map[string]error{}
+		startedAfterClose := map[string]bool{} // the call was made after streamsMap.CloseWithError had returned
+		// the missing bytes never arrive and nothing but the end of the connection can end the call
+		// (a stream that the peer reset, the application cancelled or a 0-RTT rejection closed - with
+		// Err0RTTRejected - has a terminal error of its own, which Read may go on returning: not judged)
+		ownEnd := hasStep(v, "rst") || hasStep(v, "cancelread") || hasStep(v, "reset0rtt")
+		gapForEver := strings.Contains(v.Setup, "gap") && !hasStep(v, "fill") && !ownEnd
 		var threads []sched.Thread
 		for i, names := range v.Threads {
 			th := sched.Thread{Name: fmt.Sprintf("t%d", i)}
@@ -160,7 +213,11 @@ func c17e3sScenario(v c17e3sVariant) func() *sched.Scenario {
 				case "close":
 					f = func() { closing = true; sm.CloseWithError(errC17e3sClosed); closed = true }
 				case "readall":
-					f = func() { _, err := io.ReadAll(rd); results[key] = err }
+					f = func() { startedAfterClose[key] = closed; _, err := io.ReadAll(rd); results[key] = err }
+				case "peek":
+					f = func() { startedAfterClose[key] = closed; _, err := rd.Peek(make([]byte, 100)); results[key] = err }
+				case "fill":
+					f = fill
 				case "cancelread":
 					f = cancelRead
 				case "write":
@@ -197,13 +254,20 @@ func c17e3sScenario(v c17e3sVariant) func() *sched.Scenario {
 			Threads: threads,
 			Final: func(blocked []string) *explore.Fail {
 				for _, b := range blocked {
+					stuck = true
 					return explore.Failf("e3:call-blocked-after-connection-end", "%s: %s has not returned although the connection was closed (all other calls have returned or are blocked as well: %v)", v.Name, b, blocked)
 				}
 				for k, err := range results {
 					// a call that can only succeed with a stream from the peer or more stream credit
 					// cannot have succeeded: nothing of the kind happened
-					if err == nil && closed && (k[:6] == "accept" || k[:8] == "opensync") {
+					if err == nil && closed && (strings.HasPrefix(k, "accept") || strings.HasPrefix(k, "opensync")) {
 						return explore.Failf("e3:call-succeeded-on-closed-connection", "%s: %s returned no error", v.Name, k)
+					}
+					isRead := strings.HasPrefix(k, "read") || strings.HasPrefix(k, "peek")
+					// "every blocked or later stream ... call returns ... with the one recorded cause": a Read / Peek
+					// made after the connection ended, and one that waited for bytes which never arrived
+					if isRead && closed && ((startedAfterClose[k] && !ownEnd) || gapForEver) && !errors.Is(err, errC17e3sClosed) {
+						return explore.Failf("e3:stream-call-without-the-close-cause", "%s: %s returned %v, not the error the connection was closed with (call made after the close: %v; waiting on a gap that is never filled: %v)", v.Name, k, err, startedAfterClose[k], gapForEver)
 					}
 				}
 				return nil
@@ -211,6 +275,9 @@ func c17e3sScenario(v c17e3sVariant) func() *sched.Scenario {
 			Cleanup: func() {
 				if !closing { // (closing twice is not something a connection does)
 					sm.CloseWithError(errC17e3sClosed)
+				}
+				if stuck && cancelRead != nil { // lets the bubble terminate after the verdict
+					cancelRead()
 				}
 			},
 			Outcome: func() string {
@@ -276,7 +343,7 @@ func TestVerifC17E3S(t *testing.T) {
 			rep.OutcomesN = int64(len(rep.Outcomes))
 			rep.States = rep.OutcomesN
 			rep.Traces = rep.Transitions
-			rep.Rule = fmt.Sprintf("%d thread mixes on a real client-side streamsMap with real peer-initiated streams: streamsMap.CloseWithError (the run loop ending the connection, also right after a FIN / RESET_STREAM / acknowledgement) against application calls (Read to the end, a Read that waits, CancelRead, Write, AcceptStream, AcceptUniStream, OpenStreamSync), each mix on a fresh streams map and on one that has been through a rejected 0-RTT (ResetFor0RTT, UseResetMaps) before, plus the rejection itself (ResetFor0RTT in the run loop, then the close) racing a blocked call, NextConnection and the same call again; every mutex Lock and Unlock of stream.go, send_stream.go, receive_stream.go, streams_map*.go and internal/flowcontrol is a scheduler point (files import-rewritten to vsync from the working tree): every schedule with at most %d preemptions", len(c17e3sVariants), bound)
+			rep.Rule = fmt.Sprintf("%d thread mixes on a real client-side streamsMap with real peer-initiated streams: streamsMap.CloseWithError (the run loop ending the connection, also right after a FIN / RESET_STREAM / acknowledgement) against application calls (Read to the end, a Read / Peek that waits - for the first byte, for the end, or on a gap of missing bytes below an already received end of stream (FIN behind loss / reordering; the gap never closing, closing late, a RESET_STREAM arriving) -, CancelRead, Write, AcceptStream, AcceptUniStream, OpenStreamSync), each mix on a fresh streams map and on one that has been through a rejected 0-RTT (ResetFor0RTT, UseResetMaps) before, plus the rejection itself (ResetFor0RTT in the run loop, then the close) racing a blocked call, NextConnection and the same call again; every mutex Lock and Unlock of stream.go, send_stream.go, receive_stream.go, streams_map*.go and internal/flowcontrol is a scheduler point (files import-rewritten to vsync from the working tree): every schedule with at most %d preemptions", len(c17e3sVariants), bound)
 			rep.Bound = fmt.Sprintf("preemption bound %d completed", bound)
 			return rep
 		},
